@@ -446,6 +446,7 @@ type streamGenOpts struct {
 	benign    bool     // only benign schedules (C02)
 	sigProb   int
 	bigProb   int // percent chance of a value larger than the decoder's initial buffer
+	bigMax    int // upper bound on the number of elements of such a value (0: 550)
 }
 
 var fileNames = []string{"a.json", "b.json", "dir/c.json", "a.json", "<x>"}
@@ -468,6 +469,10 @@ func genStreamCase(t *Tape, o streamGenOpts) *StreamCase {
 			var sb strings.Builder
 			sb.WriteString("[")
 			m := 150 + t.Draw(400)
+			if o.bigMax > 550 && t.Chance(1, 6) {
+				// several buffer doublings: up to ~64 KiB
+				m = 550 + t.Draw(o.bigMax-550)
+			}
 			for k := 0; k < m; k++ {
 				if k > 0 {
 					sb.WriteString(",")
